@@ -169,8 +169,11 @@ def classify(term, lang, pv, rust, family):
         out.append(("C10", f"C10|eval|{key_tail}", rust["panic"][:200]))
         out.append((base, f"{base}|{key_tail}", rust["panic"][:200]))
         return out
+    if "cost_api_panic" in rust:
+        # `EvalResult::cost()` (initial - remaining) overflows: reported before any value comparison
+        out.append(("C10", f"C10|eval|{hb}|reported-cost-overflows", f"{cfg} {rust['cost_api_panic'][:160]} remaining={rust.get('remaining')}"))
     if "inconclusive" in mine:
-        return [("inconclusive", "oracle:" + str(mine.get("kind")), "")]
+        return out + [("inconclusive", "oracle:" + str(mine.get("kind")), "")]
     if "ok" in rust:
         if "fail" in mine:
             return [(base, f"{base}|{hb}|rust-ok/oracle-fail|{int_class(term)}", f"{cfg} rust={json.dumps(rust['ok'])[:200]} oracle fail: {mine['fail'][:100]}")]
@@ -210,7 +213,7 @@ def classify(term, lang, pv, rust, family):
         return out
     if "err" in rust:
         if rust["err"] == "OutOfExError":
-            return [("nobudget", "", "")]
+            return out + [("nobudget", "", "")]
         if "ok" in mine:
             return [(base, f"{base}|{hb}|rust-fail/oracle-ok|{rust['err']}", f"{cfg} rust err={rust['err']} oracle={json.dumps(mine['ok'])[:200]}")]
         return []
